@@ -65,9 +65,11 @@ def multiply(
     shape = numpy.broadcast_shapes(x1.shape, x2.shape)
 
     where = numpy.asarray(where)
+    # (summed as int64: a sum that leaves the unsigned 32 bit storage range is
+    # then rejected by the constructor instead of wrapping around)
     exponents = numpy.unique(
-        numpy.tile(x1.exponents, (len(x2.exponents), 1))
-        + numpy.repeat(x2.exponents, len(x1.exponents), 0),
+        numpy.tile(x1.exponents.astype(numpy.int64), (len(x2.exponents), 1))
+        + numpy.repeat(x2.exponents.astype(numpy.int64), len(x1.exponents), 0),
         axis=0,
     )
     out_ = (
